@@ -50,7 +50,7 @@ ASSUMPTIONS = [
 def budget(tier):
     if tier == 'quick':
         return {'cases': 16000, 'wall_cap_s': 240}
-    return {'cases': 300000, 'wall_cap_s': 1500}
+    return {'cases': 800000, 'wall_cap_s': 1500}
 
 
 def _pick_key(rng, nf):
